@@ -187,8 +187,11 @@ CLAIMS["C10"] = _b(
     "matching entity can have, each once, and the scan path is the plain filter predicate (specific_objects_exact, "
     "specific_services_exact, scan_objects_exact, matches_object_is_filter_semantics); only tagged events and the end marker follow a "
     "start (current_msgs_tagged); a new event goes untagged, once per connection, to exactly the connections owning a started matching "
-    "listener (new_event_once_per_connection, not_started_matches_nothing). That the cookie and uuid views of the registry read by the two "
-    "paths agree is decided by the correspondence runs: partial there.", "DESIGN.md section 6 C10")
+    "listener (new_event_once_per_connection, not_started_matches_nothing). The cookie and uuid views of the registry read by the two "
+    "paths agree: for ALL histories the registry is consistent with unique cookies (registry_views_agree_all_histories, from the registry "
+    "invariant of C03), and then whichever path is selected a tagged created-event is sent iff the object / service is registered and the "
+    "filters match (start_lists_exactly_the_matching_objects, start_lists_exactly_the_matching_services). The client library's fan-out "
+    "to several listeners of one client is covered by sys scenario B only.", "DESIGN.md section 6 C10 and 10.2")
 CLAIMS["C11"] = _b(
     "Machine-checked proofs (Lean 4) over a model in which every expect/unreachable!/debug_assert! of the broker is an explicit Panic "
     "result. From every reachable state (fewer than 2^32 pending calls), one whole turn of Broker::run on any event - any message of "
